@@ -73,6 +73,19 @@ def evalFn (cfg : Cfg) (toks : List String) : String :=
     let o := cfg.ops
     let cv := String.join ((o.convert g).map hex2)
     s!"mt={fmtNats (o.matchTag g (nat! t))} me={fmtNats (o.matchEmpty g)} ms={fmtNats (o.matchSpecial g)} mf={fmtNats (o.matchFull g)} lz={o.emptyLeadingZeros g} tz={o.emptyTrailingZeros g} cv={cv}"
+  | ["fn", "serdezst", _kind, hint] =>
+    -- Deserialize of a collection of ZERO-SIZED elements from an empty stream claiming `hint` entries
+    -- (`-` = no hint): `with_capacity(cautious(hint))`, element size 0 (a block is control bytes only)
+    let h : Option Nat := if hint = "-" then none else some (nat! hint)
+    let n := cautious h
+    if n = 0 then "cap=0 bytes=0"
+    else
+      match capacityToBuckets bits W 0 n with
+      | none => "overflow"
+      | some b =>
+        match calculateLayoutFor bits W 0 W b with
+        | none => "overflow"
+        | some l => s!"cap={bucketMaskToCapacity (b - 1)} bytes={l.size}"
   | ["fn", "static_empty"] => String.join ((Raw.new W).ctrl.toList.map hex2)
   | ["fnrange", "c2b", lo, hi, size] =>
     let lo := nat! lo
